@@ -1469,6 +1469,9 @@ func main() {
 	}
 
 	phase("blocks")
+	// 9. one Block object through histories of calls
+	objStream(g)
+	phase("block-objects")
 	r.Extra["alloc_measured_over_model_min_max"] = []float64{minAllocVsModel, maxAllocVsModel}
 	r.Extra["alloc_model_struct_sizes_tx_txin_txout"] = []uint64{uint64(sizeofTx), uint64(sizeofTxIn), uint64(sizeofTxOut)}
 	r.Extra["alloc_cases_measured"] = allocMeasured
@@ -1481,8 +1484,8 @@ func main() {
 		"the reference parser in this harness (refParse/refSerialize) states BIP144 + Bitcoin Core's UnserializeTransaction/ReadCompactSize",
 		"allocation counter of the model (Wire.allocTx) counts bytes REQUESTED (64-bit Go: pointer 8, slice header 24, struct sizes from unsafe.Sizeof); size-class rounding and the panic value of a refused input are covered by the tie bound A <= measured <= 2A+2048",
 	}
-	r.Finish("corpus (defect witnesses of F4, boundary shapes, Core's tx_valid/tx_invalid vectors from /repo/lib/test); BIP144 encodings of random transactions (0..300 inputs/outputs/witness items, scripts 0..65537 bytes, CompactSize boundaries 252..257/65535..65537) with and without trailing bytes; EVERY truncation and every byte position mutated 6-9 ways of a sample; every length field of a sample in each of the four CompactSize forms and with huge values; marker/flag combinations; emptied witnesses; unstructured bytes; structured transactions through both serialisers; random blocks (header Merkle field = root of the txids; also random / bit-flipped field, CVE-2012-2459 duplicated tails, dropped and swapped transactions) with trailing bytes, truncations, bit flips, changed count forms. distinct = distinct input byte strings longer than 4 bytes",
-		"each byte string is run through btc.NewTx/SetHash/Serialize/SerializeNew/Weight/VSize/TxSize (blocks: NewBlock+BuildTxListExt true and false), through the Lean model (oracle_c09) and through an independent BIP144/Core reference parser; the property predicate (no panic; accepted iff the reference accepts; re-encoding = bytes consumed; txid/wtxid = double-SHA256 of the stripped/full serialisation; Size/NoWitSize/Weight/VSize/BlockWeight per BIP141; TxSize = consumed and never past the buffer; allocation ≤ 64·len+8192; MerkleRootMatch iff built completely, header field = reference Merkle root of the reference txids, no duplicated pair) is evaluated on the real code; model = implementation on every field is the tie for the theorems in Props/C09.lean")
+	r.Finish("corpus (defect witnesses of F4, boundary shapes, Core's tx_valid/tx_invalid vectors from /repo/lib/test); BIP144 encodings of random transactions (0..300 inputs/outputs/witness items, scripts 0..65537 bytes, CompactSize boundaries 252..257/65535..65537) with and without trailing bytes; EVERY truncation and every byte position mutated 6-9 ways of a sample; every length field of a sample in each of the four CompactSize forms and with huge values; marker/flag combinations; emptied witnesses; unstructured bytes; structured transactions through both serialisers; random blocks (header Merkle field = root of the txids; also random / bit-flipped field, CVE-2012-2459 duplicated tails, dropped and swapped transactions) with trailing bytes, truncations, bit flips, changed count forms; histories of 1..8 calls (UpdateContent with valid / truncated / count-damaged / header-only / too-short contents, BuildTxListExt(false), BuildTxList, Clean, the client's reset) on ONE Block object. distinct = distinct input byte strings longer than 4 bytes",
+		"each byte string is run through btc.NewTx/SetHash/Serialize/SerializeNew/Weight/VSize/TxSize (blocks: NewBlock+BuildTxListExt true and false), through the Lean model (oracle_c09) and through an independent BIP144/Core reference parser; the property predicate (no panic; accepted iff the reference accepts; re-encoding = bytes consumed; txid/wtxid = double-SHA256 of the stripped/full serialisation; Size/NoWitSize/Weight/VSize/BlockWeight per BIP141; TxSize = consumed and never past the buffer; allocation ≤ 64·len+8192; MerkleRootMatch iff built completely, header field = reference Merkle root of the reference txids, no duplicated pair) is evaluated on the real code; for Block objects with a history: after every build the object carries exactly what a fresh Block of the bytes it holds now carries (error class, TxCount, Txs ids/sizes, BlockWeight, MerkleRootMatch), no panic, Txs[i].Hash = reference txid after BuildTxList, and every field after every call equals the stateful Lean model; model = implementation on every field is the tie for the theorems in Props/C09.lean")
 }
 
 func replay(path string) {
@@ -1501,6 +1504,8 @@ func replay(path string) {
 		checkTx("replay", vlib.UnHex(str("raw")))
 	case "block":
 		checkBlock("replay", vlib.UnHex(str("raw")))
+	case "obj":
+		replayObj(str("data"), str("ops"))
 	case "enc":
 		fmt.Println("replay: oracle line:", str("line"))
 		fmt.Println(o.MustAsk(str("line")))
